@@ -19,6 +19,10 @@ RULE = ('(a) enumerated: every raised class x every handler list of length 1..2 
         'interpreter.  Non-trivial: an exception was matched through a base '
         'class, or several handlers could match, or a raise / return sits '
         '>= 2 blocks deep.  Distinct = hash of (ast, syntax).')
+RULE += (
+         'Also: during the checked rendering every call of the '
+         'recorders ft / fa / ff first renders the same compiled '
+         'template again from the top (re-entrancy). ')
 ASSUMPTIONS = ['reference interpreter vf/model.py is trusted',
                'dtml-raise of an unknown type name and dtml-return inside a '
                'dtml-raise message body are not generated (not covered by '
